@@ -60,7 +60,7 @@ class Interp:
             self.next_oid += 1
             self.alloc_cache[ctx] = oid
         o = Obj(oid, cls, region, site, self.loops, self.epoch, label)
-        self.heap.objs[oid] = o
+        self.heap.add(o)
         if region == "global":
             self.persistent[oid] = o
         self.stats["allocs"] += 1
@@ -72,6 +72,12 @@ class Interp:
             o = self.persistent[oid]
             self.heap.objs[oid] = o
         return o
+
+    def mobj(self, oid) -> Obj:
+        """The record of oid, made exclusive to the current heap (call before mutating it)."""
+        if oid not in self.heap.objs:
+            self.heap.objs[oid] = self.persistent[oid]
+        return self.heap.mut(oid)
 
     def ref(self, o: Obj, deps=()) -> Val:
         return Val(refs=[o.oid], deps=deps)
@@ -171,7 +177,7 @@ class Interp:
                 continue
             ro = self.obj(r)
             if ro.owner is None:
-                ro.owner = (parent_oid, step)
+                self.mobj(r).owner = (parent_oid, step)
 
     def anchor(self, oid):
         """(anchor object, steps from it) following owner links up to the nearest program-class object."""
@@ -211,7 +217,7 @@ class Interp:
         targets = self.store_targets(base, "." + name)
         strong = len(base.refs) == 1 and not base.locs
         for oid in base.refs:
-            o = self.obj(oid)
+            o = self.mobj(oid)
             if strong:
                 o.fields[name] = value
             else:
@@ -224,7 +230,7 @@ class Interp:
     def write_elem(self, base: Val, key: Optional[Val], value: Val, node, kind="setitem"):
         targets = self.store_targets(base, "[*]")
         for oid in base.refs:
-            o = self.obj(oid)
+            o = self.mobj(oid)
             o.elem = join(o.elem, value)
             self.adopt(oid, "[*]", value)
             if key is not None:
